@@ -20,6 +20,6 @@ for q in mod.MIR:
     if sub in q.name:
         t = time.time()
         o = mir_engine._worker(CACHE + "/similari.mir", CACHE + "/repo", pid, q.name, 0)
-        print("%-40s %-12s paths=%d z3=%d %.1fs %s" % (q.name, o["status"], o["paths"], o["queries"], time.time() - t, o["detail"][:600]))
+        print("%-40s %-12s paths=%d z3=%d (%.1fs solver) %.1fs %s" % (q.name, o["status"], o["paths"], o["queries"], o["solver_s"], time.time() - t, o["detail"][-500:]))
         if o["status"] == "violated":
             print("   cex:", {k: v for k, v in list(o["cex"]["inputs"].items())[:12]}, o["cex"]["info"])
